@@ -237,6 +237,7 @@ def _entry_facts(c, F0, F1):
         ("hash", z3.If(F0.hashes.has(me), F1.hashes.get(me) == F0.hashes.get(me),
                        z3.And(F1.hashes.has(me), F1.hashes.get(me) == H.hash_bytes(hashf(cont(c.old.data, F0.heap)))))),
         ("other-hashes-kept", z3.ForAll([s], z3.Implies(s != me, z3.And(F1.hashes.has(s) == F0.hashes.has(s), F1.hashes.get(s) == F0.hashes.get(s))))),
+        ("hash-present", F1.hashes.has(me)),
     ]
 
 
